@@ -17,6 +17,9 @@ type runner struct {
 
 var runners = map[string]runner{
 	"C01": {"model_checking", ribhist.RunC01},
+	"C02": {"model_checking", ribhist.RunC02},
+	"C03": {"model_checking", ribhist.RunC03},
+	"C16": {"model_checking", ribhist.RunC16},
 }
 
 func main() {
